@@ -354,9 +354,15 @@ pub fn check(opts: &CheckOpts) -> CheckResult {
                         beats[w].index.store(i + 1, Ordering::Relaxed);
                         let case = generate(prop, run_seed(seed, prop, i), tier);
                         let heavy = case.program.stmts.len() > 20_000;
+                        // (DTR_SIM_HANG_CPU_SECS shortens the allowance; the sensitivity tooling
+                        // uses it to get through deliberately hanging libraries faster)
+                        let normal = std::env::var("DTR_SIM_HANG_CPU_SECS")
+                            .ok()
+                            .and_then(|s| s.parse::<u64>().ok())
+                            .unwrap_or(30);
                         beats[w]
                             .allow
-                            .store(if heavy { 1800 } else { 30 }, Ordering::Relaxed);
+                            .store(if heavy { 1800 } else { normal }, Ordering::Relaxed);
                         let ev = evaluate(prop, &case);
                         beats[w].index.store(0, Ordering::Relaxed);
                         if let Some(h) = &ev.harness_error {
